@@ -59,3 +59,40 @@ Proof.
   destruct Hrun as (Ho & _ & Hz).
   split; [intros p; apply table_scan_is_filter; exact Ho|intros p; apply table_scan_reopen_is_filter; assumption].
 Qed.
+
+(* ---------- the split run read back as one sorted level ---------- *)
+Lemma scan_spec_app a b p : scan_spec (a ++ b) p = scan_spec a p ++ scan_spec b p.
+Proof. unfold scan_spec. rewrite filter_app, map_app. reflexivity. Qed.
+
+Lemma find_key_app key a b :
+  find_key key (a ++ b) = match find_key key a with Some e => Some e | None => find_key key b end.
+Proof. induction a as [|e a IH]; [reflexivity|]. cbn [app find_key]. destruct (beqb (e_key e) key); [reflexivity|exact IH]. Qed.
+
+Lemma level_read_chunks (reop : table -> table) chunks :
+  Forall (fun c => (forall key, table_get (reop (write_table c)) key = get_spec c key) /\
+                   (forall p, table_scan_prefix (reop (write_table c)) p = Some (scan_spec c p))) chunks ->
+  (forall p, level_scan (map (fun c => reop (write_table c)) chunks) p = Some (scan_spec (concat chunks) p)) /\
+  (forall key, level_get (map (fun c => reop (write_table c)) chunks) key = get_spec (concat chunks) key).
+Proof.
+  induction 1 as [|c cs [Hg Hs] _ [IHs IHg]]; [split; reflexivity|]. split.
+  - intros p. cbn [map level_scan fold_right concat]. fold (level_scan (map (fun c => reop (write_table c)) cs) p).
+    rewrite Hs, IHs, scan_spec_app. reflexivity.
+  - intros key. cbn [map level_get concat]. rewrite Hg, IHg. unfold get_spec. rewrite find_key_app.
+    destruct (find_key key c); reflexivity.
+Qed.
+
+Theorem level_reads_run_back es target : 1 <= target -> run_ok es ->
+  (forall p, level_scan (map write_table (write_run es target)) p = Some (scan_spec es p)) /\
+  (forall key, level_get (map write_table (write_run es target)) key = get_spec es key) /\
+  (forall p, level_scan (map (fun c => reopen (write_table c)) (write_run es target)) p = Some (scan_spec es p)) /\
+  (forall key, level_get (map (fun c => reopen (write_table c)) (write_run es target)) key = get_spec es key).
+Proof.
+  intros Ht Hok. pose proof (write_run_tables_read_back es target Ht Hok) as H.
+  assert (Hc : concat (write_run es target) = es) by (apply write_run_concat; exact Ht).
+  destruct (level_read_chunks (fun t => t) (write_run es target)) as [A B].
+  { eapply Forall_impl; [|exact H]. intros c (_ & G & _ & S & _). split; assumption. }
+  destruct (level_read_chunks reopen (write_run es target)) as [C D].
+  { eapply Forall_impl; [|exact H]. intros c (_ & _ & G & _ & S). split; assumption. }
+  rewrite Hc in A, B, C, D. rewrite map_ext with (g := write_table) in A, B by reflexivity.
+  repeat split; assumption.
+Qed.
